@@ -90,6 +90,31 @@ func TestMatrix(t *testing.T) {
 				}}, "matrix:"+eng)
 			}
 		}
+		// every atomic instruction at every kind of address, each followed by atomic instructions
+		// of several kinds on the same memory: from the same function object, from the other one,
+		// and from code entered through another instance's import and a host callback
+		for sub := 0; sub < nAtomicSubs; sub++ {
+			if sub > 0x03 && sub < 0x10 {
+				continue
+			}
+			for mode := 0; mode < 3; mode++ {
+				if (sub == 0x01 || sub == 0x02) && mode != 0 {
+					continue
+				}
+				first := []int{opAtomicOK + mode, sub}
+				run(&Case{Engine: eng, NInst: 2, Steps: []Step{
+					{Kind: "call", Inst: 0, Fn: 0, Ops: []int{opAtomicOK, 0x1e}},
+					{Kind: "call", Inst: 0, Fn: 0, Ops: first},
+					{Kind: "call", Inst: 0, Fn: 0, Ops: []int{opAtomicOK, 0x10}},
+					{Kind: "call", Inst: 0, Fn: 1, Ops: []int{opAtomicOK, 0x4a}},
+					{Kind: "call", Inst: 1, Fn: 0, Ops: []int{opNestPeer, opAtomicOK, 0x03}},
+					{Kind: "call", Inst: 1, Fn: 1, Ops: []int{opCallback | 0<<1, opAtomicOK, 0x00}},
+					{Kind: "call", Inst: 1, Fn: 0, Ops: first},
+					{Kind: "call", Inst: 1, Fn: 0, Ops: []int{opAtomicOK, 0x41}},
+					{Kind: "start", Inst: 0, Start: startSection, Ops: []int{opNestPeer, opAtomicUnaligned, 0x18}},
+				}}, "matrix-atomic:"+eng)
+			}
+		}
 		// stack exhaustion: every frame kind, directly and below a swallowing host callback, twice
 		for k := 0; k < nRecKinds; k++ {
 			for _, sh := range [][]int{{}, {opNestPeer, opCallback | 1<<1 | 1}} {
@@ -113,6 +138,9 @@ func replaceSelf(ops []int) []int {
 	for i, op := range r {
 		if byte(op)&opCbMask == opCallback && (op>>1)&3 == 3 {
 			r[i] = opCallback | op&(1|opCbTable)
+		}
+		if byte(op) >= opAtomicOK && byte(op) <= opAtomicUnaligned {
+			break
 		}
 		if o := op &^ opViaTable; trapText[byte(op)] != "" || o == opProcExit || o == opCloseCont || o == opCloseTrap || o == opCloseNoRet {
 			break // what follows a terminal operation is its argument
